@@ -71,7 +71,7 @@ fn judge_inv(
     world: &World,
     expect_noop: bool,
 ) -> bool {
-    let prop: &str = if ctx.prop == "C13" { "C09" } else { &ctx.prop };
+    let prop: &str = if ctx.prop == "C13" { if case % 3 == 0 { "C17" } else { "C09" } } else { &ctx.prop };
     let mk_case = |out: &InvOut| -> J {
         J::obj()
             .with("case", J::i(case))
@@ -291,7 +291,7 @@ pub fn random_edit(prop: &str, rng: &mut Rng, world: &mut World) -> Option<J> {
     let domain_c03 = prop == "C03";
     let choice = match prop {
         "C17" => *rng.pick(&[0usize, 0, 1, 3, 4, 5, 13, 13, 13]),
-        "C09" => *rng.pick(&[0usize, 1, 8, 8, 8, 9, 9, 3, 5, 12]),
+        "C09" => *rng.pick(&[0usize, 1, 8, 8, 8, 9, 9, 3, 5, 12, 2]),
         "C08" => *rng.pick(&[10usize, 10, 10, 10, 0, 11, 11, 6, 14, 14, 15, 16, 8, 8, 9]),
         _ => rng.below(13),
     };
@@ -661,8 +661,9 @@ pub fn random_edit(prop: &str, rng: &mut Rng, world: &mut World) -> Option<J> {
 }
 
 fn history_case(ctx: &Ctx, dir: &std::path::Path, case: u64, seed: u64, rep: &mut Report) {
-    // C13's "reported by a depfile" clause uses C09's workload (dependencies reported under several spellings)
-    let prop: &str = if ctx.prop == "C13" { "C09" } else { &ctx.prop };
+    // C13 borrows C09's workload (dependencies reported under several spellings) and, every third
+    // case, C17's (the manifest itself named under another spelling with -f)
+    let prop: &str = if ctx.prop == "C13" { if case % 3 == 0 { "C17" } else { "C09" } } else { &ctx.prop };
     let mut rng = Rng::new(seed);
     let opts = hist_opts(prop, &mut rng, ctx.thorough());
     let mut proj = gen_project(&mut rng, &opts);
@@ -674,6 +675,18 @@ fn history_case(ctx: &Ctx, dir: &std::path::Path, case: u64, seed: u64, rep: &mu
             let f = format!("own{}.in", i);
             proj.sources.push(f.clone());
             proj.steps[i].ins.push(f.clone());
+            proj.steps[i].effect = Effect::TouchOwnInput(f);
+        }
+    }
+    if prop == "C03" && rng.chance(1, 5) {
+        // a module cache / precompiled header: reported as a dependency and touched by the same command
+        let cands: Vec<usize> = (0..proj.steps.len()).filter(|&i| !proj.steps[i].phony && proj.steps[i].effect == Effect::Write).collect();
+        if !cands.is_empty() {
+            let i = *rng.pick(&cands);
+            let f = format!("owncache{}.h", i);
+            proj.sources.push(f.clone());
+            proj.steps[i].discovers = true;
+            proj.steps[i].extra_reads.push(f.clone());
             proj.steps[i].effect = Effect::TouchOwnInput(f);
         }
     }
@@ -727,6 +740,10 @@ fn history_case(ctx: &Ctx, dir: &std::path::Path, case: u64, seed: u64, rep: &mu
         }
         // build (sometimes a restat episode for C03)
         let mut inv = random_inv(&mut rng, &world.proj, matches!(prop, "C02" | "C09"));
+        if prop == "C17" && rng.chance(1, 4) {
+            // -f with a non-canonical spelling of the manifest's name
+            inv.build_file = Some(respell(&world.proj.manifest, &mut rng));
+        }
         if prop == "C17" {
             inv.targets = pick_outs(&world.proj, &mut rng);
             if rng.chance(1, 6) {
@@ -1013,6 +1030,15 @@ fn crash_case(ctx: &Ctx, dir: &std::path::Path, case: u64, seed: u64, rep: &mut 
             let parsed = crate::dbfmt::parse_db(&bytes);
             if let Some(m) = &parsed.malformed {
                 rep.inconclusive.push(format!("case {}: harness db reader rejects crashed file: {}", case, m));
+            }
+            // sometimes the manifest is edited before the next build (a record torn by the crash may
+            // then belong to outputs that no single step produces any more)
+            if rng.chance(1, 3) {
+                for _ in 0..rng.range(1, 2) {
+                    if let Some(o) = random_edit("C08", &mut rng, &mut world) {
+                        h2.ops.push(o);
+                    }
+                }
             }
             // invocation 2: fault-free, all targets
             let inv2 = Inv { j: 64, k: None, policy: Policy::Random, seed: rng.next(), ..Default::default() };
